@@ -65,13 +65,20 @@ def make_definition(desc):
     stocks = []
     for s in desc["stocks"]:
         kw = dict(name=s["name"], dim_letters=tuple(s["letters"]), subclass=getattr(fd, s["cls"]), time_letter=s.get("time_letter", "t"))
+        if s.get("defaults"):
+            # fields left to the definition's own defaults: the built stock follows the DEFINITION's values
+            kw.pop("name")
+            if kw["time_letter"] == "t":
+                kw.pop("time_letter")
         if s.get("proc") is not None:
             kw["process"] = desc["procs"][s["proc"]]
         if s.get("lt"):
             kw["lifetime_model_class"] = getattr(fd, s["lt"])
         if s.get("solver"):
             kw["solver"] = s["solver"]
-        stocks.append(fd.StockDefinition(**kw))
+        sd = fd.StockDefinition(**kw)
+        s["name"] = sd.name  # what the definition says (its default when none was given)
+        stocks.append(sd)
     params = [fd.ParameterDefinition(name=p["name"], dim_letters=tuple(p["letters"])) for p in desc["params"]]
     return fd.MFADefinition(dimensions=dim_defs(U), processes=list(desc["procs"]), flows=flows, stocks=stocks, parameters=params)
 
@@ -209,6 +216,8 @@ def definition_cases(draw):
             s["solver"] = draw(st.sampled_from([None, "manual", "lapack", "lapack"]))
         stocks.append(s)
     desc["stocks"] = stocks
+    if stocks and draw(st.integers(0, 3)) == 0:
+        stocks[draw(st.integers(0, len(stocks) - 1))]["defaults"] = True  # at most one: default names would collide
     desc["params"] = [{"name": f"prm {i}", "letters": draw(gen.ordered_subtuple(allL))} for i in range(draw(st.integers(0, 3)))]
     return desc
 
